@@ -32,7 +32,7 @@ for n in names:
             summary = [l for l in p.stdout.split('\n') if l.startswith('%s %s' % (c, tier))]
             results.setdefault(n, {})['%s/%s' % (c, tier)] = dict(caught=p.returncode == 1 and 'VIOLATION' in p.stdout, rc=p.returncode, keys=keys[:6],
                                                                   summary=(summary[0] if summary else p.stdout[-200:] + p.stderr[-300:]), wall=round(time.time() - t0))
-            print(n, c, tier, 'CAUGHT' if p.returncode == 1 else 'missed', keys[:3], flush=True)
+            print(n, c, tier, 'CAUGHT' if (p.returncode == 1 and 'VIOLATION' in p.stdout) else ('missed' if p.returncode == 0 else 'CHECK-ERROR rc=%s' % p.returncode), keys[:3], flush=True)
     finally:
         subprocess.run(['git', '-C', '/repo', 'checkout', '--', '.'])
     json.dump(results, open(out_path, 'w'), indent=1, sort_keys=True)
